@@ -439,7 +439,7 @@ def run(job):
                        'outcomes': _jsonable(B.cfg['env']), 'hooks': _jsonable(B.cfg['hooks']), 'controller': _jsonable(B.cfg['ctl']),
                        'queue_modes': 'fifo+lifo' if B.cfg['lifo'] is None else ('lifo' if B.cfg['lifo'] else 'fifo'),
                        'mode': 'thread' if B.cfg['thread_mode'] else 'task', 'time_budget_s': job['budget']},
-            'summary': f'{R.states} states, {R.transitions} transitions, depth {R.max_depth}{"" if R.complete else " (budget reached)"}, {len(vios)} violation(s)',
+            'summary': f'{R.states} states, {R.transitions} transitions, depth {R.max_depth}{"" if R.complete else (" (memory bound reached)" if getattr(R, "mem_bound", False) else " (budget reached)")}, {len(vios)} violation(s)',
         }
     if job['kind'] in ('sync_bse', 'recycle_bse'):
         from . import w_sync
@@ -502,7 +502,7 @@ def run(job):
             'bounds': {'tasks': B.cfg['tasks'], 'depth': cfg['depth'], 'max_size': '0..=%d (symbolic)' % B.cfg['max_size_bound'], 'constructor': B.cfg['ctor'],
                        'get_variants': _jsonable(B.cfg['get_variants']), 'add_variants': _jsonable(B.cfg['add_variants']), 'controller': _jsonable(B.cfg['ctl']),
                        'mode': 'thread' if B.cfg['thread_mode'] else 'task', 'time_budget_s': job['budget']},
-            'summary': f'{R.states} states, {R.transitions} transitions, depth {R.max_depth}{"" if R.complete else " (budget reached)"}, {len(vios)} violation(s)',
+            'summary': f'{R.states} states, {R.transitions} transitions, depth {R.max_depth}{"" if R.complete else (" (memory bound reached)" if getattr(R, "mem_bound", False) else " (budget reached)")}, {len(vios)} violation(s)',
         }
     raise KeyError(job['kind'])
 
